@@ -39,7 +39,9 @@ Definition pins : list string := ["usim/_concurrent/basics.py:_first_monitor";
   "usim/_primitives/context.py:CancelScope.<attrs>";
   "usim/_primitives/context.py:ScopeClosed.<attrs>";
   "usim/_primitives/context.py:Scope.<attrs>";
-  "usim/_primitives/context.py:InterruptScope.<attrs>"].
+  "usim/_primitives/context.py:InterruptScope.<attrs>";
+  "usim/_basics/streams.py:<module>";
+  "usim/_basics/streams.py:Channel.__init__"].
 (** the functions the model of C16 was transcribed from are unchanged in /repo *)
 Lemma src_unchanged : forallb pin_ok pins = true.
 Proof. vm_compute. reflexivity. Qed.
